@@ -22,6 +22,8 @@ def check_plan(rep, fil, X, nchans, nbits, gulp, start, nsamps, skipback, tag):
         for cnt, ii, data in fil.read_plan(gulp=gulp, start=start, nsamps=nsamps, skipback=skipback, quiet=True):
             blocks.append((int(cnt), int(ii), np.array(data, copy=True)))
     except ValueError as exc:
+        if start + n_eff > N and not blocks:
+            return  # a range that leaves the data: rejected before anything was yielded, as required
         if blocks:
             rep.fail("ValueError after a block was yielded", function="readers.py::FilReader.read_plan", input=inp,
                      observed=f"{len(blocks)} blocks then {exc}")
@@ -31,6 +33,10 @@ def check_plan(rep, fil, X, nchans, nbits, gulp, start, nsamps, skipback, tag):
         return
     except Exception as exc:  # noqa: BLE001
         rep.fail(f"read_plan raised {type(exc).__name__}", function="readers.py::FilReader.read_plan", input=inp, observed=str(exc))
+        return
+    if start + n_eff > N:
+        rep.fail("a plan whose range leaves the data was accepted", function="readers.py::FilReader.read_plan", input=inp,
+                 required="ValueError before the first block")
         return
     if s >= g:
         rep.fail("a plan with skipback >= effective gulp was accepted", function="readers.py::FilReader.read_plan", input=inp,
@@ -96,6 +102,11 @@ def sweep_impl(rep, tier, seed, only_nbits=None):
                                     continue  # thin the non-first layouts in the quick tier
                                 check_plan(rep, fil, X, nchans, nbits, gulp, start, nsamps, skipback, f"{len(names)} files {splits}")
                 check_plan(rep, fil, X, nchans, nbits, 4, 0, None, -2, "negative skipback")
+                # plans the reader cannot honour because the range runs past the end of the data: rejected up front,
+                # also when the overrun only shows in a later block
+                for gulp, start, nsamps, skipback in ((4, 0, N + 6, 0), (3, 2, N, 1), (N, 0, N + 1, 0), (2, N - 1, 3, 0),
+                                                      (4, 1, 2 * N, 2)):
+                    check_plan(rep, fil, X, nchans, nbits, gulp, start, nsamps, skipback, f"overrun, {len(names)} files")
     finally:
         shutil.rmtree(tmp, ignore_errors=True)
 
